@@ -404,6 +404,18 @@ def kkt(prog: Program, rep, sc) -> None:
     if len(r) != 1:
         raise AnalysisError("from_equilibrated_kkt: expected one return")
     v = ff.resolved(r[0], r[0].value)
+
+    class _Canon(ast.NodeTransformer):
+        # np.negative(x) is -x; bmat(.., format=None, dtype=None) is bmat(..) (the defaults spelled out)
+        def visit_Call(self, n):
+            self.generic_visit(n)
+            if np_call(n, "negative") and len(n.args) == 1 and not n.keywords:
+                return ast.copy_location(ast.UnaryOp(op=ast.USub(), operand=n.args[0]), n)
+            if (dotted(n.func) or "").endswith("bmat"):
+                n.keywords = [k for k in n.keywords if not (k.arg in ("format", "dtype") and isinstance(k.value, ast.Constant) and k.value.value is None)]
+            return n
+    import copy as _copy
+    v = ast.fix_missing_locations(_Canon().visit(_copy.deepcopy(v)))
     kk = f"scale_symmetric(sp.sparse.bmat([[{h}, {j}.T], [{j}, None]]))"
     n_txt = f"__item__({j}.shape, 1)"
     ok = isinstance(v, ast.Call) and dotted(v.func) == "Scaling" and len(v.args) == 2 and U(v.args[0]) == f"-{kk}[:{n_txt}]" and U(v.args[1]) == f"{kk}[{n_txt}:]"
